@@ -288,6 +288,11 @@ func c13Child(a *ChildArgs) {
 			c13Input(a, "SELECT "+strings.Repeat("(", d)+"1"+strings.Repeat(")", d), "E2007")
 			c13Input(a, "SELECT "+strings.Repeat("f(", d)+"1"+strings.Repeat(")", d), "E2007")
 			c13Input(a, "SELECT "+strings.Repeat("CASE WHEN a THEN ", d)+"1"+strings.Repeat(" END", d), "E2007")
+			// nesting that is stopped by the guards outside the expression parser: CTE bodies, derived tables, sub-queries
+			c13Input(a, strings.Repeat("WITH c AS (", d)+"SELECT 1"+strings.Repeat(") SELECT * FROM c", d), "E2007")
+			c13Input(a, strings.Repeat("SELECT * FROM (", d)+"SELECT 1"+strings.Repeat(") x", d), "E2007")
+			c13Input(a, "SELECT "+strings.Repeat("(SELECT ", d)+"1"+strings.Repeat(")", d), "E2007")
+			c13Input(a, "SELECT "+strings.Repeat("MATCH(a) AGAINST (", d)+"'x'"+strings.Repeat(")", d)+" FROM t", "E2007")
 		}
 		// the depth-limit error keeps its code wherever the over-deep expression stands: every expression-bearing clause,
 		// alone and inside the constructs that describe their sub-errors (statement after WITH, CTE body, CASE, BETWEEN)
